@@ -1,7 +1,7 @@
 import EbisimModel
 /-! Line-protocol driver: one request per line on stdin, one answer line on stdout.
 Every floating-point number travels as the decimal rendering of its IEEE-754 bit pattern. -/
-open Radial Xs Elements
+open Radial Xs Elements Basic
 
 def fb (s : String) : Float := Float.ofBits (UInt64.ofNat s.toNat!)
 def tokz (s : String) : Array String := Id.run do
@@ -137,6 +137,7 @@ def handle (t : Array String) : String :=
     | _ => "bad-op"
   | "esamp" => pr (eSampDefault (α := Float) t[1]!.toNat! t[2]!.toNat!)
   | "elimits" => pr [eMinRule (α := Float) t[1]!.toNat!, eMaxRule (α := Float) t[1]!.toNat!]
+  | "drsamp" => pr (drSampDefault (α := Float) t[1]!.toNat! (fb t[2]!) t[3]!.toNat!)
   | "logspace" => pr (logspace (fb t[1]!) (fb t[2]!) t[3]!.toNat!)
   | "ident" =>
     match parseIdent t 1 with
@@ -179,6 +180,29 @@ def handle (t : Array String) : String :=
         | some (n, kT) => "ok " ++ pr (n ++ kT)
         | none => "ValueError")
     | (none, _) => "bad-op"
+  | "basic" =>
+    -- basic Z j E hasW [w] cni hasN0 [n0…] : rate matrix (flattened) | y0
+    let z := t[1]!.toNat!
+    let j := fb t[2]!; let e := fb t[3]!
+    let hasW := t[4]! == "1"
+    let (w, p) := if hasW then (some (fb t[5]!), 6) else (none, 5)
+    let cni := t[p]! == "1"
+    let hasN := t[p+1]! == "1"
+    let given := if hasN then some (flist t (p+2)).1 else none
+    let c := Basic.call z j e (Num.lit 0) w given cni none
+    pr c.jac.flatten ++ " | " ++ pr c.y0
+  | "matvec" =>
+    let n := t[1]!.toNat!
+    let (m, p) := flist t 2
+    let (v, _) := flist t p
+    let rows := (List.range n).map fun i => (m.drop (i * n)).take n
+    pr (Basic.matVec rows v)
+  | "beam" =>
+    -- beam cur b_d r_d b_c r_c t_c e_kin r -> ok value iters new old r_e phi0 | ValueError
+    let B : Beam.Params Float := ⟨fb t[1]!, fb t[2]!, fb t[3]!, fb t[4]!, fb t[5]!, fb t[6]!⟩
+    match Beam.correction B 10000 (fb t[7]!) (fb t[8]!) with
+    | none => "ValueError"
+    | some (v, s) => "ok " ++ pb v ++ " " ++ toString s.iters ++ " " ++ pr [s.new, s.old, s.r_e, s.phi0] ++ (if s.exhausted then " exhausted" else "")
   | "chunks" =>
     " ".intercalate ((Chunks.indices t[1]!.toNat! t[2]!.toNat!).map fun ab => toString ab.1 ++ " " ++ toString ab.2)
   | _ => "bad-op"
